@@ -6,28 +6,40 @@
 (*   obs{modes, lists, handles}              what every live object shows right after the call          *)
 (* The driver logs no state of the specification: which library result a list must show is inferred by   *)
 (* the actions of Bindings from the history of calls.                                                    *)
-EXTENDS Bindings, TraceIO
+EXTENDS BindingsPos, TraceIO
 
 VARIABLES l, cfg
 Ev == Rec[l]
-TInit == BInit /\ l = 1 /\ cfg = ""
-tvars == <<bvars, l, cfg>>
+TInit == BInit /\ PInit /\ l = 1 /\ cfg = ""
+tvars == <<bvars, pvars, l, cfg>>
 
 Res(r) == IF r = "ok" THEN "ok" ELSE "err"      \* a panic of the library is an exception in Python
 
-TrLib == /\ l <= NRec /\ Ev.ev = "lib"
+TrLibPos == /\ l <= NRec /\ Ev.ev = "lib" /\ Ev.op = "pos"
+            /\ posList' = Ev.list /\ UNCHANGED <<bvars, matchers, cfg>> /\ l' = l + 1
+
+TrLib == /\ l <= NRec /\ Ev.ev = "lib" /\ Ev.op # "pos"
          /\ IF Ev.op = "tok"
             THEN libTok' = Put(libTok, <<Ev.text, Ev.mode, SeqToSet(Ev.fields)>>, [res |-> Res(Ev.res), ms |-> Ev.ms]) /\ UNCHANGED libLookup
             ELSE libLookup' = Put(libLookup, Ev.text, [res |-> Res(Ev.res), ms |-> Ev.ms]) /\ UNCHANGED libTok
-         /\ UNCHANGED <<tks, lists, handles, nextInp, cfg>> /\ l' = l + 1
+         /\ UNCHANGED <<tks, lists, handles, nextInp, cfg, pvars>> /\ l' = l + 1
 
 TrSess == /\ l <= NRec /\ Ev.ev = "sess"
           /\ tks' = Fn0 /\ lists' = Fn0 /\ handles' = Fn0 /\ nextInp' = 1 /\ cfg' = Ev.cfg
-          /\ libTok' = Fn0 /\ libLookup' = Fn0 /\ l' = l + 1        \* the oracle's results for this session follow
+          /\ libTok' = Fn0 /\ libLookup' = Fn0 /\ matchers' = Fn0 /\ posList' = <<>> /\ l' = l + 1        \* the oracle's results for this session follow
 
 Fields(a) == IF a.all_fields THEN AllFields ELSE SeqToSet(a.fields)
 
-TrCall == /\ l <= NRec /\ Ev.ev = "call"
+IsPosOp == Ev.op \in {"matcher", "matcher_fn", "mop"}
+
+TrPosCall == /\ l <= NRec /\ Ev.ev = "call" /\ IsPosOp
+             /\ LET a == Ev.args IN
+                CASE Ev.op = "matcher" -> MatcherNew(a.mid, a.pats, Ev.res)
+                  [] Ev.op = "matcher_fn" -> MatcherFn(a.mid, a.field, a.value, Ev.res)
+                  [] Ev.op = "mop" -> MatcherOp(a.mid, a.kind, a.a, a.b, Ev.res)
+             /\ UNCHANGED <<bvars, cfg>> /\ l' = l + 1
+
+TrCall == /\ l <= NRec /\ Ev.ev = "call" /\ ~IsPosOp
           /\ LET a == Ev.args IN
              CASE Ev.op = "create"   -> Ev.res = "ok" /\ Create(a.tk, a.mode, Fields(a), a.projection)
                [] Ev.op = "tokenize" -> /\ Tokenize(a.tk, a.text, a.mode, a.out, a.new, Ev.res)
@@ -37,15 +49,17 @@ TrCall == /\ l <= NRec /\ Ev.ev = "call"
                [] Ev.op = "lookup"   -> /\ Lookup(a.text, a.out, a.new, Ev.res)
                                         /\ (Ev.res = "ok" /\ a.out # None) => Ev.same_object
                [] Ev.op = "hold"     -> Hold(a.h, a.list, a.idx, Ev.res)
-          /\ UNCHANGED cfg /\ l' = l + 1
+          /\ UNCHANGED <<cfg, pvars>> /\ l' = l + 1
 
 TrObs == /\ l <= NRec /\ Ev.ev = "obs"
          /\ \A i \in 1..Len(Ev.modes) : tks[Ev.modes[i][1]].mode = Ev.modes[i][2]     \* the creation mode, whatever was overridden
          /\ {Ev.lists[i][1] : i \in 1..Len(Ev.lists)} = DOMAIN lists
          /\ \A i \in 1..Len(Ev.lists) : ListShows(Ev.lists[i][2], Ev.lists[i][1])
          /\ \A i \in 1..Len(Ev.handles) : HandleShows(Ev.handles[i][2], Ev.handles[i][1])
-         /\ UNCHANGED <<bvars, cfg>> /\ l' = l + 1
+         /\ {Ev.matchers[i][1] : i \in 1..Len(Ev.matchers)} = DOMAIN matchers
+         /\ \A i \in 1..Len(Ev.matchers) : MatcherShows(Ev.matchers[i][2], Ev.matchers[i][1])
+         /\ UNCHANGED <<bvars, pvars, cfg>> /\ l' = l + 1
 
-TNext == TrLib \/ TrSess \/ TrCall \/ TrObs
+TNext == TrLib \/ TrLibPos \/ TrSess \/ TrCall \/ TrPosCall \/ TrObs
 TSpec == TInit /\ [][TNext]_tvars
 =============================================================================
